@@ -25,6 +25,7 @@ def run(ctx):
     harvest.unsynced_rule(ctx, "C05.R6", "Harvester")
     harvest.loader_errors_rule(ctx, "C05.R7", "Harvester")
     harvest.reload_reads_rule(ctx, "C05.R8", "Harvester")
+    harvest.stale_encoding_rule(ctx, "C05.R9")
     prog = ctx.prog
     h = prog.need_cls(FARM + ".Harvester")
     sl = [h.methods[n] for n in ("__init__", "load_full_ds", "full_ds", "save_full_ds", "delete_ds", "add_ds", "expand_dims", "drop_sel", "harvest_combos", "harvest_cases") if n in h.methods]
